@@ -185,6 +185,21 @@ pub mod fs {
         fn remove_file(&mut self, _path: &str ) -> Option<io::Result<()>> { None }
         fn exists(&mut self, _path: &str ) -> Option<bool> { None }
         fn open_with(&mut self, _path: &str, _spec: &OpenSpec ) -> Option<io::Result<u64>> { None }
+        /// length of the open file / of the file at `path`
+        fn len_of_handle(&mut self, _handle: u64 ) -> Option<u64> { None }
+        fn len_of_path(&mut self, _path: &str ) -> Option<u64> { None }
+        /// reposition an open handle; returns the new offset from the start
+        fn seek(&mut self, _handle: u64, _to: io::SeekFrom ) -> Option<io::Result<u64>> { None }
+        fn set_len(&mut self, _handle: u64, _len: u64 ) -> Option<io::Result<()>> { None }
+    }
+
+    /// The little of `std::fs::Metadata` a stand-in can answer.
+    #[derive(Clone, Debug)]
+    pub struct Metadata { len: u64 }
+    impl Metadata {
+        pub fn len(&self) -> u64 { self.len }
+        pub fn is_file(&self) -> bool { true }
+        pub fn is_dir(&self) -> bool { false }
     }
 
     /// What an `OpenOptions` asks for.
@@ -259,6 +274,28 @@ pub mod fs {
             OpenOptions::new()
         }
 
+        pub fn metadata(&self) -> io::Result<Metadata> {
+            match &self.inner {
+                Inner::Real( f ) => f.metadata().map(|m| Metadata { len: m.len() }),
+                Inner::Sim( h ) => Ok( Metadata { len: with_backend(|b| b.len_of_handle( *h )).flatten().unwrap_or( 0 ) } ),
+            }
+        }
+
+        pub fn set_len(&self, len: u64 ) -> io::Result<()> {
+            match &self.inner {
+                Inner::Real( f ) => f.set_len( len ),
+                Inner::Sim( h ) => with_backend(|b| b.set_len( *h, len )).flatten().unwrap_or( Ok(()) ),
+            }
+        }
+
+        fn do_seek(&self, to: io::SeekFrom ) -> io::Result<u64> {
+            match &self.inner {
+                Inner::Real( f ) => { let mut f: &::std::fs::File = f; io::Seek::seek( &mut f, to ) },
+                Inner::Sim( h ) => with_backend(|b| b.seek( *h, to )).flatten()
+                    .unwrap_or_else(|| Err( io::Error::new( io::ErrorKind::Unsupported, "seek: no fs backend" ) )),
+            }
+        }
+
         pub fn sync_all(&self) -> io::Result<()> {
             match &self.inner {
                 Inner::Real( f ) => f.sync_all(),
@@ -310,6 +347,14 @@ pub mod fs {
 
     impl Read for &File {
         fn read(&mut self, buf: &mut [u8] ) -> io::Result<usize> { self.do_read( buf ) }
+    }
+
+    impl io::Seek for File {
+        fn seek(&mut self, to: io::SeekFrom ) -> io::Result<u64> { self.do_seek( to ) }
+    }
+
+    impl io::Seek for &File {
+        fn seek(&mut self, to: io::SeekFrom ) -> io::Result<u64> { self.do_seek( to ) }
     }
 
     impl Drop for File {
@@ -371,6 +416,15 @@ pub mod fs {
         match with_backend(|be| be.exists( &a )) {
             Some( Some( r ) ) => Ok( r ),
             _ => path.as_ref().try_exists(),
+        }
+    }
+
+    /// `std::fs::metadata` over the seam (length only).
+    pub fn metadata<P: AsRef<Path>>( path: P ) -> io::Result<Metadata> {
+        let a = path.as_ref().to_string_lossy().into_owned();
+        match with_backend(|be| be.len_of_path( &a )) {
+            Some( Some( len ) ) => Ok( Metadata { len } ),
+            _ => ::std::fs::metadata( path ).map(|m| Metadata { len: m.len() }),
         }
     }
 
